@@ -148,7 +148,9 @@ fn main() {
 
     let n = ctx.tier.pick(100_000, 1_500_000);
     run_cases(&ctx, &replay, &mut rep, "generated", n, |rng, rep, _| {
-        let with_two = rng.chance(1, 4); let m = gen::gen_class(rng, if with_two { &cfg } else { &cfg1 });
+        let with_two = rng.chance(1, 4); let mut m = gen::gen_class(rng, if with_two { &cfg } else { &cfg1 });
+        if rng.chance(1, 5) { let lm = if rng.chance(1, 25) { 5000 } else { 60 }; for t in cf::hostile::hostilise(rng, &mut m, (1, 3), lm) { rep.seen("hostile_names", t); } rep.count("shape.hostile_names"); }
+        let m = m;
         let mut layout = if rng.bool() { emit::Layout::canonical() } else { emit::Layout::random(rng.next_u64()) }; layout.two_slot_fillers = with_two;
         let Ok(bytes) = emit::emit(&m, &layout) else { rep.count("emit.skipped"); return; };
         let feats = features::features(&m);
